@@ -282,6 +282,13 @@ def _gen_path(rng, d, name):
         adj.setdefault((l["f"], l["fo"]), []).append(((l["t"], l["to"]), l["ov"], l))
         from ..spec.grammar import cigar_complement
         adj.setdefault((l["t"], inv(l["to"])), []).append(((l["f"], inv(l["fo"])), cigar_complement(l["ov"]), l))
+    selfl = [l for l in d.links if l["f"] == l["t"] and l["fo"] == l["to"] and l["ov"] != "*"]
+    if selfl and rng.random() < 0.35 and not _has_parallel(d):
+        l = rng.choice(selfl)
+        if rng.random() < 0.5:
+            return {"name": name, "segs": [(l["f"], l["fo"])], "ovs": [l["ov"]]}
+        from ..spec.grammar import cigar_complement
+        return {"name": name, "segs": [(l["f"], inv(l["fo"]))], "ovs": [cigar_complement(l["ov"])]}
     cur = rng.choice(list(adj.keys()))
     segs = [cur]
     ovs = []
